@@ -89,7 +89,30 @@ def gen_e2e_case(rng):
     nonauto = rng.random() < 0.7
     pf, pp = gen_frames(rng, rng.choice([1, 3, 6, 10]), top=M64 if rng.random() < 0.2 else ADDRESSABLE - 1)
     pf = pf[:120]
-    if nonauto:
+    collide = nonauto and rng.random() < 0.5
+    if collide:
+        # PV-guest style: the machine frames are (mostly) the same numbers as the guest frames,
+        # paired differently - swapped pairs, cycles, a shuffle - so that a number N is a guest
+        # frame of one entry and the machine frame of another; a few numbers occur in one
+        # column only
+        pf = [p for p in pf if p < ADDRESSABLE][:60] or [5, 6, 7]
+        k = rng.random()
+        mf = list(pf)
+        if k < 0.35 and len(mf) >= 2:                   # swapped neighbours
+            for i in range(0, len(mf) - 1, 2):
+                mf[i], mf[i + 1] = mf[i + 1], mf[i]
+        elif k < 0.7:                                   # one cycle
+            r = rng.randrange(1, len(mf)) if len(mf) > 1 else 0
+            mf = mf[r:] + mf[:r]
+        else:
+            rng.shuffle(mf)
+        used = set(pf)
+        for i in range(len(mf)):                        # machine-only numbers
+            if rng.random() < 0.15:
+                g = mf[i] + rng.choice([0x1000, 0x10000, 3])
+                if g not in used and g not in mf and g < ADDRESSABLE:
+                    mf[i] = g
+    elif nonauto:
         # machine frames: another duplicate-free run structure of the same length
         mf = []
         seen = set()
@@ -109,6 +132,16 @@ def gen_e2e_case(rng):
     probes = []
     cand_p = [p for p in pf if p < ADDRESSABLE] + [p for p in pp if p < ADDRESSABLE]
     cand_m = [g for g in mf if g < ADDRESSABLE]
+    if collide:
+        # histories that alternate the two directions on the same number, in both orders,
+        # also with a number that only one column lists
+        nums = list(set(cand_p[:len(pf)]) | set(cand_m))
+        for _ in range(rng.randint(3, 10)):
+            n = rng.choice(nums)
+            off = rng.choice([0, 8, 0x123 & ~7, 0xff8])
+            pat = rng.choice(["pm", "mp", "pmp", "mpm", "ppm", "mmp", "pmmp"])
+            for c in pat:
+                probes.append("%s:%x" % (c, (n << 12) | off))
     for _ in range(rng.randint(4, 24)):
         mach = rng.random() < 0.45
         pool = cand_m if (mach and nonauto) else cand_p
@@ -119,6 +152,8 @@ def gen_e2e_case(rng):
         f = max(0, min(ADDRESSABLE - 1, f))
         off = rng.choice([0, 8, 0xff8, 8 * rng.randrange(512)])
         probes.append("%s:%x" % ("m" if mach else "p", (f << 12) | off))
+    if collide:
+        rng.shuffle(probes) if rng.random() < 0.3 else None
     return "X %s %s | %s" % ("n" if nonauto else "a",
                              ",".join("%x:%x" % e for e in zip(pf, mf)), " ".join(probes))
 
